@@ -1,7 +1,10 @@
 """C03 — adaptive Simpson integration: Integrate(func,a,b,epsilon,maxRecursionDepth)."""
-import math, random
+import math, random, sys
 from fractions import Fraction
 from common import *
+
+if hasattr(sys, "set_int_max_str_digits"):
+    sys.set_int_max_str_digits(0)   # exact rationals of the model can have thousands of digits
 
 try:
     import mpmath
@@ -159,8 +162,8 @@ def generate(tier, seed, ctx):
                 q = [s * s, 2 * s, 1.0]
         p = [rng.uniform(-2, 2) for _ in range(rng.randint(1, 3))]
         sc = abs(b - a) * 4 / min(abs(Fraction(q[0]) + Fraction(q[1]) * Fraction(x) + (Fraction(q[2]) * Fraction(x) ** 2 if len(q) > 2 else 0)) for x in (a, b, (a + b) / 2))
-        depth, eps = depth_eps(float(sc), maxdepth)
-        add(rq_int(1 if depth <= 8 else 0, fn_rat(p, q), a, b, eps, depth), "rat/%d/%d" % (len(p) - 1, len(q) - 1))
+        depth, eps = depth_eps(float(sc), 7)   # exact sums of p/q over many panels have huge denominators
+        add(rq_int(1, fn_rat(p, q), a, b, eps, depth), "rat/%d/%d" % (len(p) - 1, len(q) - 1))
     # 4. estimator-regular transcendental families: error <= 4|eps| + rounding --------------------------
     L4 = math.log(4.0)
     for _ in range(260 * N):
